@@ -368,6 +368,11 @@ MUTANTS += [
         if new_id in self._id_to_attacker:
             raise ValueError(f'Attacker index {attacker_id} already in use.')
 """, 'revert 62affdc (with the in-graph refusal moved behind it)'),
+    ('fixrev_readd_removed_node', ['C09'], AG,
+     """        node.children = []
+        node.parents = []
+""", """        pass
+""", 'revert e0778b6'),
     ('fixrev_readd_node', ['C09'], AG,
      """        if node.id is not None and self._id_to_node.get(node.id) is node:""",
      """        if False:""", 'revert da5a5c6'),
